@@ -177,24 +177,30 @@ def rule_2(ctx):
                    '(2.675 is 2.675, not 2.67499999...), is rounded with the requested mode to the requested digits and comes back as float')
         ctx.expect(after == before, rf, f'_round{args!r} leaves the process-wide decimal context alone',
                    f'after _round the global decimal context is {after}, before it was {before}: the rounding mode must be set on a local context')
-    # Number.__trunc__ truncates toward zero
+    # truncation of a number goes toward zero; TRUNC and EVEN as the evaluator calls them
     fm = ctx.mod('xlfunctions.func_xltypes')
-    tr = fm.func('Number.__trunc__')
+    import math as _pm
     for x, want in ((-1.5, -1), (-0.5, 0), (0.5, 0), (1.5, 1), (-2.0, -2)):
-        it = Interp(ctx.a, fm, {'self': Rec(value=x)}, call_models={XLT + 'Number': lambda v: v, 'ext:math.trunc': _math.trunc,
-                                                                   'ext:math.floor': _math.floor, 'ext:math.ceil': _math.ceil})
-        out = it.run(tr.body)
-        ctx.expect(out.end == 'return' and out.value == want, tr, f'Number({x}).__trunc__()',
-                   f'truncating {x} yields {out.value!r}, expected {want} (toward zero): TRUNC of a negative number rounds the wrong way')
+        it = Interp(ctx.a, ctx.mod('xlfunctions.math'), {'n': Rec(cls=XLT + 'Number', value=x)}, inline_pkg=True)
+        out = it.run(ast.parse('return math.trunc(n)').body)
+        got = V.norm(out.value) if out.end == 'return' else (out.end, V.norm(out.value))
+        val = got[1] if isinstance(got, tuple) and len(got) == 2 and got[0] == 'Number' else got
+        ctx.expect(val == want and not isinstance(val, bool), fm.cls('Number'), f'Number({x}).__trunc__()',
+                   f'truncating {x} yields {got!r}, expected {want} (toward zero): TRUNC of a negative number rounds the wrong way')
     f = _reg(ctx, 'TRUNC')
-    ok = any(ctx.res.resolve(c.func, f.module) == 'ext:math.trunc' for c in flow.calls_in(f.node))
-    ctx.expect(ok, f.node, 'TRUNC truncates with math.trunc', 'TRUNC no longer truncates with math.trunc')
+    for args, want in (((8.9,), 8.0), ((-8.9,), -8.0), ((-0.5,), 0.0), ((12.75, 1), 12.7), ((-12.75, 1), -12.7), ((1234.5, -2), 1200.0)):
+        out = V.call(ctx, 'TRUNC', [V.num(a) for a in args])
+        got = V.norm(out.value) if out.end == 'return' else (out.end, V.norm(out.value))
+        val = got[1] if isinstance(got, tuple) and len(got) == 2 and got[0] == 'Number' else got
+        ctx.expect(isinstance(val, (int, float)) and not isinstance(val, bool) and abs(val - want) < 1e-12, f.node, f'TRUNC{args!r} truncates toward zero',
+                   f'TRUNC{args!r} gives {got!r}, expected {want}')
     # EVEN at the critical points around even integers
     f = _reg(ctx, 'EVEN')
     for x, want in ((-3, -4), (-2.5, -4), (-2, -2), (-0.5, -2), (0, 0), (0.5, 2), (1, 2), (2, 2), (2.5, 4), (3, 4)):
-        it = Interp(ctx.a, f.module, {func_params(f.node)[0]: x}, call_models={'ext:math.ceil': _math.ceil, 'ext:math.floor': _math.floor})
-        out = it.run(f.node.body)
-        ctx.expect(out.end == 'return' and out.value == want, f.node, f'EVEN({x})', f'EVEN({x}) yields {out.value!r}, expected {want}')
+        out = V.call(ctx, 'EVEN', [V.num(x)])
+        got = V.norm(out.value) if out.end == 'return' else (out.end, V.norm(out.value))
+        val = got[1] if isinstance(got, tuple) and len(got) == 2 and got[0] == 'Number' else got
+        ctx.expect(val == want and not isinstance(val, bool), f.node, f'EVEN({x})', f'EVEN({x}) yields {got!r}, expected {want}')
     ctx.floor(40, 'rounding-direction obligations')
 
 
